@@ -103,12 +103,25 @@ def run(facts, res):
     dr = facts.body("datastorage::DataStorage::refresh")
     if dr is not None:
         pl = R.path("pack_loader")
-        loads = [(s_.block, s_.term) for s_ in cg.sites[dr.path] if not s_.fanout and any(t_.path == pl or cg.reaches(t_, pl) for t_ in s_.targets)]
+        from ..common import inlined_sites as _is4
+
+        def _loads(t):
+            tb_ = facts.body(t.callee.target()) if t.callee is not None else None
+            return tb_ is not None and (tb_.path == pl or cg.reaches(tb_, pl))
+        loads = list(_is4(facts, dr, _loads))
         ok = bool(loads)
-        for bi, t in loads:
-            kv = {x[1] for i_ in range(1, len(t.args)) for x in walk(arg_term(dr, t, i_, 12)) if x[0] == "var"}
-            g = any(l.kind == "call" and callee_name(l.term) == "contains" and l.truth is False and "applied_pack_ids" in field_path(l.term[2][0])[0] and
-                    ({x[1] for x in walk(l.term[2][1]) if x[0] == "var"} & kv) for l in lits_of(dr, bi, facts))
+        for s_ in loads:
+            # roots of the pack id: named locals, and the element of the adaptor chain when the load sits in its closure
+            def roots(t_, clos):
+                return {(x[0], x[1]) for x in walk(t_) if x[0] == "var" or (clos and x[0] == "param" and x[1] >= 2)}
+            clos = s_.body.kind == "closure"
+            kv = set()
+            for a_ in s_.args[1:]:
+                kv |= roots(a_, clos)
+            g = any(l.kind == "call" and callee_name(l.term) == "contains" and l.truth is False and
+                    ("applied_pack_ids" in field_path(l.term[2][0])[0] or any(x[0] == "upvar" and "applied_pack_ids" in str(x[2]) for x in walk(l.term[2][0])) or
+                     any(x[0] == "field" and x[2] == "applied_pack_ids" for x in walk(l.term[2][0]))) and
+                    (roots(l.term[2][1], clos) & kv) for l in s_.lits)
             ok = ok and g
         res.instance("Q4", "DataStorage::refresh loads a pack only if it is not in the applied-pack set: %s" % ok, dr.loc())
         if not ok:
